@@ -360,7 +360,7 @@ def observe_all(ex: Exec, sim, values, chest=None, it=None):
     return obs
 
 
-def diff_observations(a, b, names=None, rename=None):
+def diff_observations(a, b, names=None, rename=None, strict=False):
     """Differences between two observation records (twin oracle).
 
     Anchors/constants are compared by name; maps must be equal, except that two
@@ -379,6 +379,8 @@ def diff_observations(a, b, names=None, rename=None):
                 # a name may be an anchor in one build and a named constant in the other
                 eb = b["const" if kind == "out" else "out"].get(nb)
             if eb is None:
+                if strict:
+                    out.append({"name": name, "what": "named result observable in the first build only", "a": ea})
                 continue
             sa, sb = ea.get("signals"), eb.get("signals")
             if sa is None or sb is None:
@@ -390,6 +392,13 @@ def diff_observations(a, b, names=None, rename=None):
             if len(sa) <= 1 and len(sb) <= 1 and list(sa.values()) == list(sb.values()):
                 continue
             out.append({"name": name, "what": "signals differ", "a": sa, "b": sb})
+    if strict:
+        inv = {v: k for k, v in (rename or {}).items()}
+        have = set(a["out"]) | set(a["const"])
+        for kind in ("out", "const"):
+            for name, eb in b[kind].items():
+                if inv.get(name, name) not in have and (names is None or name in names):
+                    out.append({"name": name, "what": "named result observable in the second build only", "b": eb})
     for key, ta in a.get("ent", {}).items():
         tb = b.get("ent", {}).get(key)
         if tb is None:
@@ -417,7 +426,7 @@ def common_observed(a, b):
 
 
 def run_twin_case(case, prog_a, opts_a, prog_b, opts_b, vals=None, chests=None, rename=None,
-                  label_a="A", label_b="B", reference=True, files=None, vals_b=None):
+                  label_a="A", label_b="B", reference=True, files=None, vals_b=None, strict_names=False):
     """Differential oracle: two builds must be observationally equal for every valuation;
     build A is additionally compared with the reference semantics (a common error is not missed)."""
     import random as _r
@@ -455,7 +464,7 @@ def run_twin_case(case, prog_a, opts_a, prog_b, opts_b, vals=None, chests=None, 
         if oa["missing_inputs"] or ob["missing_inputs"]:
             return dict(base, verdict="inconclusive", src=src_a,
                         why="declared input(s) not found by their label: %s %s" % (oa["missing_inputs"], ob["missing_inputs"]))
-        d = diff_observations(oa, ob, rename=rename)
+        d = diff_observations(oa, ob, rename=rename, strict=strict_names)
         compared += common_observed(oa, ob)
         if any(v.get("signals") for v in oa["out"].values()):
             nonzero += 1
@@ -490,7 +499,7 @@ def run_twin_case(case, prog_a, opts_a, prog_b, opts_b, vals=None, chests=None, 
         loa = observe_all(exa, la, va, chest)
         lob = observe_all(exb, lb, vb, chest)
         if kind == "twin":
-            ld = diff_observations(loa, lob, rename=rename)
+            ld = diff_observations(loa, lob, rename=rename, strict=strict_names)
         else:
             it = lang.Interp(prog_a, va, chest=chest, files=files).run()
             ld = compare_outputs(expected_of(it), loa, skip=set(va))[0]
